@@ -2,7 +2,7 @@
    parameters, outcomes.  Definitions only. *)
 From Formula Require Export Num.Dec Lex.Scanner.
 
-Inductive gokind := GInt | GInt8 | GInt16 | GInt32 | GInt64 | GUint | GUint8 | GUint16 | GUint32 | GUint64.
+Inductive gokind := GInt | GInt8 | GInt16 | GInt32 | GInt64 | GUint | GUint8 | GUint16 | GUint32 | GUint64 | GUintptr.
 
 (* an instant with a fixed-offset zone: nanoseconds since the Unix epoch, offset in seconds *)
 Record gotime := mkTime { t_ns : Z; t_off : Z }.
@@ -63,6 +63,15 @@ Fixpoint assoc_set (k : list Z) (v : value) (m : list (list Z * value)) : list (
 Definition int_bits (k : gokind) : Z :=
   match k with
   | GInt8 | GUint8 => 8 | GInt16 | GUint16 => 16 | GInt32 | GUint32 => 32 | _ => 64
+  end.
+
+(* identity of Go integer types: uint and uint64 (or int and int64) have the same width and signedness and are
+   still different types, so two interface values holding them are never == *)
+Definition gokind_eqb (a b : gokind) : bool :=
+  match a, b with
+  | GInt, GInt | GInt8, GInt8 | GInt16, GInt16 | GInt32, GInt32 | GInt64, GInt64
+  | GUint, GUint | GUint8, GUint8 | GUint16, GUint16 | GUint32, GUint32 | GUint64, GUint64 | GUintptr, GUintptr => true
+  | _, _ => false
   end.
 
 Definition int_signed (k : gokind) : bool :=
